@@ -91,7 +91,15 @@ def enum_of(L, case):
     bits = tuple(case["bits"])
     cls = _gen_cache.get(bits)
     if cls is None:
-        cls = L["general"].InstanceEventFilter("GenFilter%d" % len(bits), {"flag%d" % b: 1 << b for b in bits})
+        # the program has other filter enums too and may have asked any of them for its width already:
+        # the base class (no flags), the library's 8-bit ones, a narrower relative
+        base = L["general"].InstanceEventFilter
+        for other in [base] + [L[n].InstanceEventFilter for n in LIB_ENUMS]:
+            try:
+                other.dali_width()
+            except Exception:  # noqa - not what this case judges
+                pass
+        cls = base("GenFilter%d" % len(bits), {"flag%d" % b: 1 << b for b in bits})
         _gen_cache[bits] = cls
     return cls, None, width_of(len(bits)), list(bits)
 
